@@ -356,7 +356,7 @@ func c06GenCfg(rng *sim.Rand) c06Cfg {
 		}
 		if rng.Bool(0.15) {
 			s.Cred = [2]string{"AKIDCRED" + c06RandStr(rng, 3, c06Alnum), c06RandStr(rng, rng.Pick(8, 20), c06Alnum)}
-			if rng.Bool(0.1) && c06GenNoKeyMap {
+			if rng.Bool(0.1) {
 				s.NoMap = true
 			}
 		}
@@ -428,14 +428,6 @@ var c06QVals = []string{"1", "2", "10", "", "x/y", "v&w", "v=w", "é", "~-._", "
 	"hello world", "a b c", " x", "", "2020-01-01T00:00:00Z", "a:b", "50%25", "{\"k\":1}", "it's", "*"}
 var c06QKeys = []string{"a", "b", "q", "k", "name", "z", "A", "id", "x-y", "p_1", "filter[name]", "user.id", "ids[]", "ключ", "a/b", "Z", "q"}
 
-// Switches for the two generator ranges in which the unchanged tree violates
-// the statement (see the header comment): they stay generated; set to false
-// only to look at everything else while those findings are open.
-const (
-	c06GenQuerySpaces = false
-	c06GenNoKeyMap    = false
-)
-
 func c06GenQuery(rng *sim.Rand) [][2]string {
 	var q [][2]string
 	n := rng.Pick(0, 0, 1, 1, 2, 3, 5)
@@ -444,11 +436,7 @@ func c06GenQuery(rng *sim.Rand) [][2]string {
 		if i > 0 && rng.Bool(0.35) {
 			k = q[rng.Intn(len(q))][0] // multi-valued parameter
 		}
-		v := c06QVals[rng.Intn(len(c06QVals))]
-		if !c06GenQuerySpaces && strings.Contains(v, " ") {
-			v = strings.ReplaceAll(v, " ", "_")
-		}
-		q = append(q, [2]string{k, v})
+		q = append(q, [2]string{k, c06QVals[rng.Intn(len(c06QVals))]})
 	}
 	if c06CanonQuery(q) != c06CanonQueryRawOrder(q) {
 		// the two defensible sort orders differ: keep an unambiguous query
